@@ -186,6 +186,72 @@ def whyFn (cfg : Config) : Stmt → List String
         ++ (if quiets cfg rs then [] else ["fn:return-annotation-needs-hoisting"]) ++ whySs cfg b
   | _ => ["not-a-function"]
 
+/-! Classification for programs using the *mutable* part of the tracer prelude (`B`, `L`, `G`, `bump`): there a load
+is not pure, so the tolerance of `pairHaz` for pure operands does not apply — any overtaking of a non-constant
+operand belongs to the class `operand_effect_reordered_after_later_operand`. -/
+def pairHazM (cfg : Config) (pk : String) (ens : Bool) (ki : String × Expr) : List (String × Expr) → List String
+  | [] => []
+  | kj :: rest =>
+      let hi := ens && !okChild cfg pk ki.1 ki.2
+      let hj := ens && !okChild cfg pk kj.1 kj.2
+      let moved := !quiet cfg kj.2 || (hj && !hi)
+      (if moved && !(match operand ki.2 with | .const .. => true | _ => false) then [H_OPERAND] else [])
+        ++ pairHazM cfg pk ens ki rest
+
+def pairsHazM (cfg : Config) (pk : String) (ens : Bool) : List (String × Expr) → List String
+  | [] => []
+  | k :: rest => pairHazM cfg pk ens k rest ++ pairsHazM cfg pk ens rest
+
+mutual
+partial def hazEM (cfg : Config) : Expr → List String
+  | .attr _ v _ _ => hazEM cfg v
+  | .subscript _ v s _ => hazEM cfg v ++ hazEM cfg s ++ pairsHazM cfg "Subscript" true [("value", v), ("slice", s)]
+  | .call _ f as ks =>
+      hazEM cfg f ++ hazEsM cfg as ++ hazEsM cfg ks ++ pairsHazM cfg "Call" true (("func", f) :: tag "args" as ++ tag "keywords" ks)
+  | .keyword _ _ _ v => hazEM cfg v
+  | .boolop _ _ vs => hazEsM cfg vs
+  | .unary _ _ e => hazEM cfg e
+  | .binop _ _ l r => hazEM cfg l ++ hazEM cfg r ++ pairsHazM cfg "BinOp" true [("left", l), ("right", r)]
+  | .compare _ l _ rs => hazEM cfg l ++ hazEsM cfg rs ++ pairsHazM cfg "Compare" true (("left", l) :: tag "comparators" rs)
+  | .ifexp _ t b e => hazEM cfg t ++ hazEM cfg b ++ hazEM cfg e
+  | .seq _ .set es _ => hazEsM cfg es ++ pairsHazM cfg "Set" true (tag "elts" es)
+  | .seq _ .tuple es c => hazEsM cfg es ++ pairsHazM cfg "Tuple" (c != .store) (tag "elts" es)
+  | .seq _ .list es c => hazEsM cfg es ++ pairsHazM cfg "List" (c != .store) (tag "elts" es)
+  | .starred _ v _ => hazEM cfg v
+  | .namedexpr _ t v => hazEM cfg t ++ hazEM cfg v
+  | .other _ _ _ ks => hazEsM cfg ks
+  | _ => []
+partial def hazEsM (cfg : Config) : List Expr → List String
+  | [] => []
+  | e :: es => hazEM cfg e ++ hazEsM cfg es
+end
+
+mutual
+partial def stmtExprs : Stmt → List Expr
+  | .functionDef _ _ _ b _ _ _ => blockExprs b
+  | .ret _ v => v
+  | .delete _ ts => ts
+  | .assign _ ts v => ts ++ [v]
+  | .augAssign _ t _ v => [t, v]
+  | .annAssign _ t a v _ => t :: a :: v
+  | .for_ _ tg it b e _ _ => tg :: it :: (blockExprs b ++ blockExprs e)
+  | .while_ _ t b e => t :: (blockExprs b ++ blockExprs e)
+  | .if_ _ t b e => t :: (blockExprs b ++ blockExprs e)
+  | .with_ _ items b _ => (items.flatMap fun | .withitem _ c v => c :: v | x => [x]) ++ blockExprs b
+  | .raise _ e c => e ++ c
+  | .try_ _ b hs e f => blockExprs b ++ blockExprs hs ++ blockExprs e ++ blockExprs f
+  | .handler _ ty _ b => ty ++ blockExprs b
+  | .assert_ _ t m => t :: m
+  | .expr _ v => [v]
+  | _ => []
+partial def blockExprs : List Stmt → List Expr
+  | [] => []
+  | s :: ss => stmtExprs s ++ blockExprs ss
+end
+
+def hazardsM (cfg : Config) (s : Stmt) : List String :=
+  (hazards cfg s ++ hazEsM cfg (stmtExprs s)).eraseDups
+
 def handlers : List (String × (List Sexp → String)) := [
   ("c18.anf", fun a => match a with
     | [c, s] => match config? c, parseStmt s with
@@ -202,6 +268,13 @@ def handlers : List (String × (List Sexp → String)) := [
       | _, none => "bad-node"
     | _ => "bad-args"),
   -- is the program in the fragment of C18_sem_partial (and free of temporary-like names)?
+  -- hazard classes for programs that use the mutable tracer objects (loads are not pure there)
+  ("c18.hazards-mut", fun a => match a with
+    | [c, s] => match config? c, parseStmt s with
+      | some cfg, some st => toString (Sexp.ofStrs (hazardsM cfg st))
+      | none, _ => "bad-config"
+      | _, none => "bad-node"
+    | _ => "bad-args"),
   ("c18.frag", fun a => match a with
     | [c, s] => match config? c, parseStmt s with
       | some cfg, some st => toString (Sexp.ofBool (fragFn cfg st && (namesS st).all (fun x => !isTempName x)))
